@@ -518,7 +518,9 @@ PROPS = {
                        "at most the requestor's advertised payload size with values below 512 counted as 512, and, if the server was configured with a limit, at most that limit (not under 512). The property is the "
                        "*precondition* of the model of UdpTransportContext::set_max_response_size_hint (the real one stores through Arc<Mutex<..>> behind a shared reference, so no postcondition of preprocess can name the "
                        "stored value; the model context carries the advertised size of the request's first OPT record as ghost state). The u16 arithmetic and Ord::clamp (lo <= hi) cannot panic. "
-                       "reserve_space_for_opt (real text): 11 octets are reserved for the OPT record of the response, 17 over TCP (keep-alive option).",
+                       "reserve_space_for_opt (real text): 11 octets are reserved for the OPT record of the response, 17 over TCP (keep-alive option). MandatoryMiddlewareSvc::{preprocess, postprocess} "
+                       "(middleware/mandatory.rs, real text): in strict mode IQUERY is answered NOTIMP and a QUERY with more than one question FORMERR, nothing else is broken off; whatever the service produced "
+                       "leaves with the ID of its request, QR set and RD copied from the request, also when truncation fails and a SERVFAIL takes its place.",
         "not_covered": "Everything else of the statement: that every response is sent back once, to the requester, with the request's ID and question, correctly framed (sockets, tasks and middleware stacks over tokio); that the "
                        "limit decided here is the one enforced -- MandatoryMiddlewareSvc::truncate compares the response length with the hint (512 without EDNS) and rebuilds header, question and OPT record, which is not "
                        "under contract (message builder with closures; the rebuilt message is not compared with the limit again: an observation, see DESIGN.md) --; TC bit and well-formedness of truncated messages; "
